@@ -62,6 +62,9 @@ pub use crate::visitor::{ExecutionPlanVisitor, accept, visit_execution_plan};
 pub use crate::work_table::WorkTable;
 pub use spill::spill_manager::SpillManager;
 
+#[cfg(datafusion_verif)]
+datafusion_common::verif_sync_shims!();
+
 mod ordering;
 mod render_tree;
 mod topk;
